@@ -146,6 +146,35 @@ func compareOn(d *sdb.Database, built *bt.Built, low, high bool) (string, string
 				if i != len(tb.Rows) {
 					return fmt.Sprintf("%s: %d rows read, %d encoded", name, i, len(tb.Rows)), "decode:table-count"
 				}
+				// ... the secondary indexes of the table: their entries hold the
+				// indexed columns and the rowid
+				for iname, bi := range tb.Indexes {
+					ix, err := d.Index(iname)
+					if err != nil {
+						return fmt.Sprintf("Index(%s): %v", iname, err), "decode:open-index"
+					}
+					k := 0
+					var problem string
+					err = ix.Scan(func(rec sdb.Record) bool {
+						if k >= len(bi.Entries) {
+							problem = fmt.Sprintf("%s: extra entry %v", iname, rec)
+							return true
+						}
+						got, ok := bt.RecordVals(rec)
+						if !ok || !bt.ValsEqual(got, bi.Entries[k].Values) {
+							problem = fmt.Sprintf("%s entry %d (%d fields): decoded %.300v, encoded %.300v", iname, k, len(rec), val.Row(got), val.Row(bi.Entries[k].Values))
+							return true
+						}
+						k++
+						return false
+					})
+					if problem != "" {
+						return problem, "decode:secondary-index-cell"
+					}
+					if err != nil || k != len(bi.Entries) {
+						return fmt.Sprintf("%s: %d of %d entries (%d fields each), error %v", iname, k, len(bi.Entries), len(bi.Spec.Cols)+1, err), "decode:secondary-index-error"
+					}
+				}
 				// ... and every record fetched on its own by its rowid (rowids of
 				// every varint length, negative ones among them)
 				for _, row := range tb.Rows {
@@ -286,8 +315,25 @@ func TestC14Records(t *testing.T) {
 			if wide {
 				ncols = rapid.IntRange(120, 200).Draw(t, "widecols") // record header longer than 127 bytes
 			}
+			// as many columns as a table can have, and an index on all of
+			// them: its entries have one field more (the rowid)
+			widest := u >= 4096 && rapid.IntRange(0, 40).Draw(t, "widest") == 7
+			if widest {
+				wide, ncols = true, 2000
+				if nrows > 3 {
+					nrows = 3
+				}
+			}
 			tab := bt.Table{Name: "t", NCols: ncols}
 			wr := bt.Table{Name: "w", NCols: ncols + 1, WithoutRowid: true, PKCols: 1}
+			if widest {
+				wr.NCols = ncols
+				all := make([]int, ncols)
+				for i := range all {
+					all[i] = i
+				}
+				tab.Indexes = []bt.Index{{Name: "t_all", Cols: all}}
+			}
 			used := map[int64]bool{}
 			for i := 0; i < nrows; i++ {
 				var row bt.Row
@@ -326,6 +372,9 @@ func TestC14Records(t *testing.T) {
 				}
 				tab.Rows = append(tab.Rows, row)
 				wrow := bt.Row{Fields: append([]fmtb.Field{fmtb.F(val.Int(row.Rowid))}, row.Fields...), HdrLen: row.HdrLen}
+				if len(wrow.Fields) > wr.NCols {
+					wrow.Fields = wrow.Fields[:wr.NCols]
+				}
 				wr.Rows = append(wr.Rows, wrow)
 			}
 			lc := rapid.SampledFrom([]int{0, 0, 1, 2, 3}).Draw(t, "leafcells")
@@ -385,13 +434,13 @@ func TestC14Records(t *testing.T) {
 				fmt.Sprintf("rec:ps=%d", s.Img.PageSize), fmt.Sprintf("rec:overflow=%v", overflow), fmt.Sprintf("rec:widehdr=%v", widehdr),
 				fmt.Sprintf("rec:padded-varints=%v", padded), fmt.Sprintf("rec:depth=%d", built.Tables["t"].Shape.Depth), fmt.Sprintf("rec:idxdepth=%d", built.Tables["w"].IShape.Depth),
 				fmt.Sprintf("rec:in-header-size-stale=%v", s.Img.Header.StaleSize > 0), fmt.Sprintf("rec:text-not-utf8=%v", badText),
-				fmt.Sprintf("rec:autovacuum=%d", s.Img.Layout.AutoVacuum), fmt.Sprintf("rec:page1-interior-without-key=%v", s.Img.Master.KeylessRoot), fmt.Sprintf("rec:autovacuum-beyond-second-map-page=%v", s.Img.Layout.AutoVacuum > 0 && built.Pages > s.Img.PageSize/5+3))
+				fmt.Sprintf("rec:autovacuum=%d", s.Img.Layout.AutoVacuum), fmt.Sprintf("rec:page1-interior-without-key=%v", s.Img.Master.KeylessRoot), fmt.Sprintf("rec:index-entries-of-2001-fields=%v", len(s.Img.Tables[0].Indexes) > 0 && s.Img.Tables[0].NCols == 2000), fmt.Sprintf("rec:autovacuum-beyond-second-map-page=%v", s.Img.Layout.AutoVacuum > 0 && built.Pages > s.Img.PageSize/5+3))
 			if problem, sig := compare(built); problem != "" {
 				report(r, t, s, built, problem, sig)
 				return
 			}
 			// sampled cross validation of the builder itself
-			if vt.Sampled(s, 8) || ((s.Img.Header.StaleSize > 0 || s.Img.Layout.AutoVacuum > 0 || s.Img.Master.KeylessRoot) && vt.Sampled(s, 2)) {
+			if vt.Sampled(s, 8) || ((s.Img.Header.StaleSize > 0 || s.Img.Layout.AutoVacuum > 0 || s.Img.Master.KeylessRoot) && vt.Sampled(s, 2) || len(s.Img.Tables[0].Indexes) > 0) {
 				diff, err := bt.SQLiteAgrees(env.O, env.Dir, built)
 				if err != nil {
 					r.Harness(t, "cross validation: %v", err)
